@@ -114,6 +114,7 @@ class C28(Check):
         "SELECT a, a, a FROM t, t\n", "SELECT 1;\nSELECT 2;\n\n", "select '   ' ,'' from t   \n", "SELECT\n\ta\n\t, b\nFROM t\n",
         "select 'yes', 'no', 'null', 'true', '~', '1e3', '0x1' from t\n", "select ': ', '- a', '#c', '{a: b}', '[1]' from t\n",
         "select ((((1))))\n", "select /* c1 */ 1 /* c2 */ -- c3\n", "select 'line1\nline2' from t\n", "select '\\' from t\n",
+        "select '" + "x" * 150 + "' as a -- " + "c" * 140 + "\nfrom t\n", "select 1" + " " * 140 + "from t /* " + "b" * 130 + " */\n",
     ]
 
     def pinned(self, tier):
